@@ -704,15 +704,19 @@ def namespace_pairing(ctx, rule="PAIR-namespace"):
             batch = ev.kwget(isb[3], "batch")
             if par is not None and ev.kwget(inner[3], par) != ("param", par):
                 ok, why = False, f"the primitive is bound with {par}={short(ev.kwget(inner[3], par) or NONE, ev, 60)}, not the namespace given"
-            elif batch is None or batch[0] != "closure":
+            elif batch is None:
                 ok, why = False, "no batch rule: the push/pop is lost (or fails) under vmap"
         if ok:
             # the batch rule re-inserts the primitive (directly or by calling this function again) with params[par]
+            from .util import apply_fn_summary
             P = ("param", "params")
-            m = Model(funcs=FUNCS)
+            m = Model(funcs=FUNCS, evaluator=ev)
             m.bind(P, {"namespace": "q"})
-            ev.apply_closure(batch, (("param", "vector_args"), ("param", "dims")), ((None, P),))
-            bev = ev.last_closure_summary.events
+            applied = apply_fn_summary(ev, batch, (("param", "vector_args"), ("param", "dims")), ((None, P),))
+            if applied is None:
+                ctx.bad("SIB-state-batch", construct, "same primitive under vmap", "no batch rule the analyser can apply: the push/pop is lost (or fails) under vmap", func_loc(ctx, dotted))
+                continue
+            bev = applied[1]
             again = [e[2] for e in bev if e[1] == "call" and is_call(e[2], name=dotted)]
             rebinds = [x for x in bind_sites(ev, bev, prim) if x[0] == ("name", ST + prim)]
             try:
@@ -792,11 +796,12 @@ def tag_state_rules(ctx, rule="ROLE-tag_state"):
     else:
         ctx.bad(rule, construct, "state_p bound over the identity with name=name", why, func_loc(ctx, dotted))
         return
-    ctx.need(batch is not None and batch[0] == "closure", "tag_state: batch rule not found (anchor vanished)")
+    from .util import apply_fn_summary
     P, VA, DIMS = ("param", "params"), ("param", "vector_args"), ("param", "dims")
-    r = ev.apply_closure(batch, (VA, DIMS), ((None, P),))
-    bsum = ev.last_closure_summary
-    rebinds = [x for x in bind_sites(ev, bsum.events, "state_p") if x[0] == ("name", ST + "state_p")]
+    applied = apply_fn_summary(ev, batch, (VA, DIMS), ((None, P),)) if batch is not None else None
+    ctx.need(applied is not None, "tag_state: batch rule not found (anchor vanished)")
+    r, bevents = applied
+    rebinds = [x for x in bind_sites(ev, bevents, "state_p") if x[0] == ("name", ST + "state_p")]
     good = len(rebinds) == 1
     if good:
         p, inner, full, g, ln = rebinds[0]
